@@ -105,6 +105,14 @@ func evaluateCondition(skel *Skeleton, orig []byte, cond *Condition) error {
 		return fmt.Errorf("condition: %w", err)
 	}
 
+	if cmp == cmpUnordered && cond.Op <= CondLessThanOrEqual {
+		// NaN is equal to nothing and not ordered: only "not equal" holds.
+		if cond.Op == CondNotEqual {
+			return nil
+		}
+		return ErrConditionNotMet
+	}
+
 	met := false
 	switch cond.Op {
 	case CondEqual:
@@ -127,6 +135,10 @@ func evaluateCondition(skel *Skeleton, orig []byte, cond *Condition) error {
 	}
 	return nil
 }
+
+// cmpUnordered is what compareLeafBytes returns when an operand is a float NaN: the operands
+// are neither equal nor ordered.
+const cmpUnordered = 2
 
 // compareLeafBytes returns -1 / 0 / 1 for a < b, a == b, a > b. Numeric
 // comparisons are class-aware; string / bytes use byte-wise comparison; bool
@@ -154,6 +166,9 @@ func compareLeafBytes(a, b []byte) (int, error) {
 		case classUint:
 			return cmpUint64(au, bu), nil
 		case classFloat:
+			if af != af || bf != bf {
+				return cmpUnordered, nil
+			}
 			return cmpFloat64(af, bf), nil
 		}
 	}
